@@ -109,10 +109,16 @@ func (c *AdminOP)SetState(s StateDB){
 
 func (c *AdminOP) Run(input []byte) ([]byte, error) {
 	//[$len + $arg]
+	if len(input) < 32+20 {
+		return nil, fmt.Errorf("admin op: input of %d bytes is too short", len(input))
+	}
 	dlen := new(big.Int).SetBytes(input[:32]).Uint64()
 	offset := dlen + 32
-	if int(offset) > len(input) {
+	if offset < dlen || offset > uint64(len(input)) {
 		offset = uint64(len(input))
+	}
+	if offset < 32+20 {
+		offset = 32 + 20
 	}
 	from := input[32:32+20]
 	data := input[32+20:offset]
